@@ -260,6 +260,17 @@ def count(ded):
     return e.i + 1 + len(rename_candidates(ast.parse(ded).body[0]))
 
 
+BASE_KEYS = {}
+
+
+def base_keys(props):
+    """finding keys of the unchanged tree (a genuine finding not yet repaired must not be counted against an edit)"""
+    from xyzsa.cli import run_property
+    for p in sorted(props):
+        code, new_f, ctx, lines_ = run_property(p, "quick", "/repo", write=False, quiet=True)
+        BASE_KEYS[p] = {f.key for f in new_f}
+
+
 def work(job):
     mid, relfile, qual, lineno, end_lineno, k, props = job
     from xyzsa.cli import run_property
@@ -294,8 +305,11 @@ def work(job):
         for p in props:
             code, new_f, ctx, lines_ = run_property(p, "quick", tmp, write=False, quiet=True)
             if code == 1:
+                fresh = [f for f in new_f if f.key not in BASE_KEYS.get(p, ())]
+                if not fresh:
+                    continue          # only what the unchanged tree is reported for as well
                 res["outcome"] = "reported"
-                res["rules"] += sorted({f.rule for f in new_f})
+                res["rules"] += sorted({f.rule for f in fresh})
             elif code == 2:
                 if res["outcome"] != "reported":
                     res["outcome"] = "exit2"
@@ -348,6 +362,7 @@ def main():
                 jobs.append(("%s#%d" % (q, k), rel, q, start, node.end_lineno, k, pp))
         print("%d edits over %d functions" % (len(jobs), len({j[2] for j in jobs})), file=sys.stderr)
     n = 0
+    base_keys({p for j in jobs for p in j[6]})
     with open(a.out, "w") as fo, ProcessPoolExecutor(a.j) as ex:
         for r in ex.map(work, jobs, chunksize=4):
             if r is None:
